@@ -9,6 +9,10 @@ checks={
    technique="bounded exhaustive input enumeration of the real framing helpers against a reference splitter",
    text="Every list of <=3 items over 7 boundary lengths (+64-item lists), every byte string of length <=3 (16.8 M) and every LEB128 prefix shape of 1..6 bytes x body length declared-1/declared/+1 is pushed through the real encode/decode helpers and compared with a 20-line strict reference splitter; single-item (uTP) framing for both versions. Complete for the stated finite space; says nothing about longer arbitrary strings outside the shape family.",
    note="Trusts the reference splitter in harness/c15.go and the leb128 dependency only as executed; inputs > 3 bytes only in the structured family.", design="5/C15"),
+ "C14": dict(level="exploration", engine="E1",
+   technique="bounded exhaustive enumeration of boundary values and of short / mutated byte strings through every real codec; round-trip and canonical re-encoding oracle",
+   text="55 codecs (11 portal messages, 4 ping payloads, history/beacon/state containers and content keys). Values: full product of per-field boundary lengths/counts derived from the ssz-max/ssz-size tags (in and just over each limit) -> encode -> decode -> equal; over-limit values must fail to encode or be rejected. Bytes: all strings up to 2 (thorough 3) bytes per codec, and every truncation, extension, offset-window replacement and single-byte mutant of every canonical encoding (beacon containers: of the repository's genuine vectors); whatever decodes must re-encode to the identical bytes and respect every declared limit.",
+   note="Limits above 65536 (transaction/receipt/uncle sizes) are not reached. fastssz/ztyp are executed as they are. Mutants are single-point.", design="5/C14"),
 }
 na_reason="check not built yet (work in progress; will be claimed once its checker exists)"
 m={"version":1,
